@@ -613,22 +613,35 @@ pub fn run_case(c: &DirCase, acc: &mut Acc, check_c06: bool, check_c17: bool, ve
             }
         }
         // independent view
-        let (root_l, sub_l, sub_first, deeper): (fsck::DirListing, Option<fsck::DirListing>, u32, Vec<(String, u32)>) = disk.with_img(|img| {
+        let (root_l, sub_l, sub_first, deeper): (fsck::DirListing, Option<fsck::DirListing>, u32, Vec<(bool, String, u32, fsck::DirListing)>) = disk.with_img(|img| {
             let fv = FatView::new(img, &lay);
             let rl = fsck::list_dir(img, &fv, DirLoc::Root);
             let sub = rl.slots.iter().find(|s| s.kind == SlotKind::Live && &s.raw[0..11] == b"TESTDIR    " && s.is_dir());
             let first = sub.map(|s| s.first(lay.fat32)).unwrap_or(0);
             let sl = sub.map(|s| fsck::list_dir(img, &fv, DirLoc::Cluster(s.first(lay.fat32))));
             // real sub-directories of both (for the '..' checks)
-            let mut deeper = Vec::new();
-            for s in rl.slots.iter().chain(sl.iter().flat_map(|l| l.slots.iter())) {
+            let mut deeper: Vec<(bool, String, u32, fsck::DirListing)> = Vec::new();
+            for (in_sub, s) in rl.slots.iter().map(|s| (false, s)).chain(sl.iter().flat_map(|l| l.slots.iter()).map(|s| (true, s))) {
                 if s.kind == SlotKind::Live && s.is_dir() && !s.is_dot() && !s.is_dotdot() && lay.in_range(s.first(lay.fat32)) {
-                    deeper.push((names::display_name(&s.name()), s.first(lay.fat32)));
+                    let nm = names::display_name(&s.name());
+                    // the first entry of a name is the one a lookup designates
+                    if deeper.iter().any(|d| d.0 == in_sub && d.1 == nm) || (!in_sub && nm == "TESTDIR") {
+                        continue;
+                    }
+                    let holder = if in_sub { sl.as_ref().unwrap() } else { &rl };
+                    let firstm = holder.slots.iter().find(|x| (x.kind == SlotKind::Live || x.kind == SlotKind::Label) && x.name() == s.name());
+                    if !firstm.map(|x| std::ptr::eq(x, s)).unwrap_or(false) {
+                        continue;
+                    }
+                    if names::ref_parse(&nm) != names::RefName::Valid(s.name()) {
+                        continue;
+                    }
+                    let l = fsck::list_dir(img, &fv, DirLoc::Cluster(s.first(lay.fat32)));
+                    deeper.push((in_sub, nm, s.first(lay.fat32), l));
                 }
             }
             (rl, sl, first, deeper)
         });
-        let _ = deeper;
         if let Some((b, o)) = root_l.nonzero_after_end {
             let _ = (b, o);
         }
@@ -663,6 +676,45 @@ pub fn run_case(c: &DirCase, acc: &mut Acc, check_c06: bool, check_c17: bool, ve
             }
             let _ = api.close_dir(sub, Surf::Raw);
             let _ = sub_first;
+        }
+        // every other sub-directory: the directory an entry designates lists as the reader says,
+        // and its '..' leads back to the directory holding the entry
+        if check_c06 {
+            for (in_sub, nm, _first, want) in deeper.iter().take(6) {
+                let parent = if *in_sub {
+                    match api.open_dir(root, "TESTDIR", Surf::Raw) {
+                        Ok(h) => h,
+                        Err(_) => continue,
+                    }
+                } else {
+                    root
+                };
+                let parent_l = if *in_sub { sub_l.as_ref().unwrap() } else { &root_l };
+                let what = format!("directory {:?} of the {}", nm, if *in_sub { "sub-directory TESTDIR" } else { "root directory" });
+                let res = (|| -> Result<(), Failure> {
+                    let h = api.open_dir(parent, nm, Surf::Raw).map_err(|e| fail("C06", "open-dir-refused", format!("{}: open_dir = {:?}", what, e)))?;
+                    let r = compare_dir(&*api, h, want, lay.fat32, None, c.lfn_cap as usize, &what, acc, true, false);
+                    let r2 = if r.is_ok() && want.slots.iter().any(|s| s.kind == SlotKind::Live && s.is_dotdot()) {
+                        match api.open_dir(h, "..", Surf::Raw) {
+                            Ok(up) => {
+                                let r = compare_dir(&*api, up, parent_l, lay.fat32, None, c.lfn_cap as usize, &format!("directory reached through \"..\" from {}", what), acc, true, false);
+                                let _ = api.close_dir(up, Surf::Raw);
+                                r
+                            }
+                            Err(e) => Err(fail("C06", "open-dir-refused", format!("open_dir(\"..\") inside {} = {:?}", what, e))),
+                        }
+                    } else {
+                        Ok(())
+                    };
+                    let _ = api.close_dir(h, Surf::Raw);
+                    r.and(r2)
+                })();
+                if *in_sub {
+                    let _ = api.close_dir(parent, Surf::Raw);
+                }
+                res?;
+                acc.class("deeper-directory-compared");
+            }
         }
     }
     // statistics
